@@ -490,6 +490,45 @@ let gen_case (toks : string list) : string =
           (match gen_marshal sc tyi v with
            | MErr -> "merr" | MPanic -> "panic"
            | MBytes b -> string_of_int sz ^ " " ^ hex_of_ints (canon_msg sc (int_of_string ty) (ints_of_bytes b)))))
+  | op :: schema :: ty :: google :: ops when String.length op >= 2 && String.sub op 0 2 = "HI" ->
+    (* a history on one message (C09); everything from the first assignment that meets a cached size on its
+       path onward prints "?" (recorded finding G14: the harness computes the same predicate on its mirror) *)
+    let sc = parse_schema schema in
+    let tyi = int_of_string ty in
+    let google = (google = "1") in
+    let st = ref (hinit (nat_of_int tyi)) in
+    let stale = ref false in
+    let out = List.map (fun tok ->
+      let hop = (match String.split_on_char ':' tok with
+        | ["S"; path; num; h] ->
+          let p = if path = "-" then [] else List.map (fun x -> n_of_int (int_of_string x)) (String.split_on_char '.' path) in
+          let numn = n_of_int (int_of_string num) in
+          let x = (match msg_at sc !st.hty !st.hroot p with
+            | Some (t, _) ->
+              let b = bytes_of_hex h in
+              (match ref_decode sc (nat_of_int (List.length b + 2)) t b with
+               | Some (GMsg (fs, _)) -> lookup_field numn fs
+               | _ -> GAbsent)
+            | None -> GAbsent) in
+          HSet (p, numn, x)
+        | ["Z"] -> HSize | ["M"] -> HMarshal | ["T"] -> HMarshalTo | ["RS"] -> HRtSize
+        | ["U"; h] -> HUnmarshal (bytes_of_hex h)
+        | ["R"] -> HReset | ["K"] -> HClone
+        | _ -> failwith ("bad history op " ^ tok)) in
+      if not (mutation_fresh !st hop) then stale := true;
+      (* finding G6: protobuf-go counts a proto3 -0.0 that the generated code drops, so its Size differs and
+         the cache it leaves is not one the model describes *)
+      (match hop with
+       | HRtSize when google && not (neg_zero_free sc (S (vdepth !st.hroot)) !st.hty !st.hroot) -> stale := true
+       | _ -> ());
+      let (o, s1) = hstep sc google !st hop in
+      st := s1;
+      if !stale then "?" else
+      (match o with
+       | BOk -> "ok" | BNoPath -> "nopath" | BErr -> "err" | BPanic -> "panic"
+       | BSize n -> string_of_int (int_of_nat n)
+       | BBytes b -> hex_of_ints (canon_msg sc tyi (ints_of_bytes b)))) ops in
+    String.concat " " out
   | [op; schema; ty; input] when String.length op >= 2 && String.sub op 0 2 = "LG" ->
     let sc = parse_schema schema in
     let tyi = nat_of_int (int_of_string ty) in
